@@ -53,6 +53,9 @@ def loaded_model(draw, big=False):
         rr = max(o['obj']['r'] for o in objs) if tg is None else [o['obj']['r'] for o in objs if o['tag'] == tg][0]
         lds.append({'kind': 'ins', 'radius': gen.r6(rr * draw(st.floats(1.2, 3))), 'eps': gen.r6(draw(st.floats(1.0, 6.0))), 'tag': tg})
     case['loads'] = lds
+    nat = sum(len(l.get('attach', [])) for l in lds)
+    if nat >= 2 and draw(st.booleans()):
+        case['attach_perm'] = list(draw(st.permutations(list(range(nat)))))
     return case
 
 
